@@ -18,6 +18,16 @@ CHECKS = {
         "objects, times 0..4, depth <=5; order inside one time point is not compared.",
         "DESIGN.md section 4 C01",
     ),
+    "C08": (
+        "exhaustive enumeration of small single-part scores x alignment label assignments x clocks x pedal streams, plus hand-written files in all seven historical dialects",
+        "All rhythm/tie/tuplet/pickup/signature/attribute/chord sub-spaces of single-part scores, all {match,deletion}^k label assignments with "
+        "0-2 extra performed notes as insertions or ornaments, seven (ppq, mpq) pairs with on-grid/off-grid/half-tick times and every pedal stream "
+        "of length 0-3 are written with save_match and loaded with load_match (with and without score); alignment, performance and reconstructed "
+        "score are compared field-wise; files in all seven dialects with shared ids exercise the documented duplicate-id resolution.",
+        "Trusted: reference model and dialect writer in mc/c08_model.py; every alignment has at least one match; line order, sound_off, channel "
+        "and track are not compared; ids accepted with or without the -1 suffix.",
+        "DESIGN.md section 4 C08",
+    ),
     "C09": (
         "exhaustive enumeration of repeat/ending/navigation structures x content variants x options; reference acceptor and reference paths",
         "Every structure of every class (simple, nested, volta shapes, D.C./D.S. with Fine/Coda, combinations) over up to 5-6 one-bar "
@@ -37,6 +47,26 @@ CHECKS = {
         "Trusted: reference arithmetic in checks/c12.py (C4=60, line of fifths, Fraction tick counts); exact half-tick ties accept either "
         "neighbour; float32 scalars and negative times are outside the quantifier.",
         "DESIGN.md section 4 C12",
+    ),
+    "C02": (
+        "exhaustive enumeration of small parts (quarter tables x signature tables x first-measure lengths x beat-mode histories) against exact Fraction integration",
+        "Every part over the stated alphabets (first point 0 or 2, up to two/three quarter-duration changes and time-signature changes at every "
+        "position combination, every first-measure length, ten meters) is built, every history of beat-mode switches to depth 3-4 is applied, "
+        "parts are edited and re-queried; the four maps and quarter_duration_map are evaluated at every integer and half position and around every "
+        "change point, as scalar/list/array, and compared with exact integration: values, origin, monotonicity, continuity, inverses.",
+        "Trusted: exact reference in mc/c02_ref.py; before the first signature both readings of the beat unit are accepted; when a signature "
+        "changes inside the first measure both origins are accepted; positions outside [first, last] are not compared.",
+        "DESIGN.md section 4 C02",
+    ),
+    "C03": (
+        "exhaustive enumeration of abstract scores in named sub-spaces (rhythm/voice cores, ties, graces, decorations singly and in pairs, attribute changes, part-group forests, repeats) with three oracles",
+        "Each named sub-space of MusicXML-expressible scores is enumerated completely (quick: the complete small sub-spaces plus one seed-selected "
+        "stride block of the large ones); every score is built through the public API, saved, re-loaded and re-saved on the real implementation: "
+        "round-trip equality on exactly the statement's attributes (voice re-assignment reading computed from the spec), an independent lxml "
+        "reader of the written bytes against the spec's sounding notes, and the byte fixpoint save(load(file)) == file.",
+        "Trusted: lxml; the independent reader mc/c03_reader.py and projection mc/c03_proj.py; scores of <=3 measures, <=4 events (5-8 on fixed "
+        "cores), two voices/staves; three open known findings (divisions change without a time point, doubled right-barline fermata, Words objects).",
+        "DESIGN.md section 4 C03",
     ),
     "C06": (
         "exhaustive enumeration of small performances x export options and of abstract MIDI files with tempo events, against an exact tick/tempo reference reader",
@@ -67,6 +97,16 @@ CHECKS = {
         "pickups generated only where 'full bar' has one reading.",
         "DESIGN.md section 4 C10",
     ),
+    "C13": (
+        "exhaustive enumeration of small note arrays in every row order x option combinations (full product on a core, pairwise covering arrays elsewhere) and of small rolls for the inverse, against a reference rasteriser",
+        "All note arrays of up to three rows over small pitch/onset/duration/velocity/channel alphabets in every row permutation are rasterised "
+        "under the full product of the nine options on a core set and pairwise-complete option rows elsewhere, in score and performance units; "
+        "shape, cell occupancy, velocities (max on collisions, independent of row order), index rows, pitch-class fold and normalisation are "
+        "compared with a reference rasteriser written from the statement; all 128xn and 88xn rolls (n<=4, <=3 runs) are decoded and compared.",
+        "Trusted: the reference rasteriser in checks/c13.py; rounding ties (off-grid half frames) are left out and counted; touching runs are not "
+        "generated for the inverse; option defaults are not checked (every option is passed explicitly).",
+        "DESIGN.md section 4 C13",
+    ),
     "C14": (
         "exhaustive enumeration of small note lists x control streams x thresholds and of all threshold-assignment histories, against a reference pedal model",
         "All note lists of up to three notes on a small grid (overlapping and zero-length notes of one pitch across channels, unsorted order) "
@@ -75,6 +115,16 @@ CHECKS = {
         "Trusted: reference model in mc/c14_model.py; an event or re-strike exactly at the release counts either way; when the pedal is never "
         "lifted and the pitch never struck again only sound_off >= note_off, monotonicity and recomputation are required.",
         "DESIGN.md section 4 C14",
+    ),
+    "C15": (
+        "exhaustive enumeration of 2-3 part inputs (divisions pairs/triples, voice/staff multisets, timing slots, element kinds, container shapes) x three reassign modes",
+        "All ordered pairs/triples of divisions values, all multisets of (voice, staff) patterns, all timing slot combinations, all pairs of "
+        "element kinds, 25 extra element kinds and eight container shapes are merged in the three modes on the real implementation; presence and "
+        "musical time of every note/rest/non-structural element, lcm divisions at every point, voice/staff partition relations, first-part-only "
+        "structural classes, identity for single parts and agreement with the score-level note array are compared with a reference merge.",
+        "Trusted: reference merge in mc/c15_model.py; staff/voice numbers of Words/Direction/Clef after merging are not compared; clefs and some "
+        "navigation classes of later parts may be kept or dropped; first measures are complete.",
+        "DESIGN.md section 4 C15",
     ),
     "C16": (
         "complete enumeration of spellings x 39 interval classes x directions and of all small scores (ties, chords, graces, decorations) x argument kinds",
